@@ -22,11 +22,15 @@ def handle : List String → Option String
   | ["lex", h] => (ofHex h).map (fun b => " ".intercalate ((lex b).map tokStr))
   | ["c10params"] => some (";".intercalate (Gen.params.map (fun (f, h, k, n) => f ++ "|" ++ h ++ "|" ++ k ++ "|" ++ n)))
   | ["c10grammar"] => some (";".intercalate (Gen.grammarFields.map (fun (l, s, f, k, t) => l ++ "|" ++ s ++ "|" ++ f ++ "|" ++ k ++ "|" ++ t)))
-  | ["c10json", col, id, labels, paths] => do
-    let c ← ofHex col
+  | ["c10json", labels, paths] => do
+    -- labels: comma list of hex; paths: `;`-separated, one per label, parts comma-separated: hex = name part, `#n` = index n
     let ls ← hexList labels
-    let ps ← if paths = "-" then some [] else (paths.splitOn ";").mapM hexList
-    some (hexOut (LogQL.jsonParserText c (← id.toNat?) ls ps))
+    let part : String → Option Qryn.Sql.JArg := fun p =>
+      if p.startsWith "#" then (p.drop 1).toString.toInt?.map .idx else (ofHex p).map .key
+    let ps ← if paths = "-" then some [] else (paths.splitOn ";").mapM (fun p =>
+      if p = "." then some [] else (p.splitOn ",").mapM part)
+    if ls.length ≠ ps.length then none else
+    some (hexOut (LogQL.jsonParserText (ls.zip ps)))
   | ["kinds", h] => (ofHex h).map (fun b => " ".intercalate ((kinds b).map tokStr))
   | _ => none
 end Driver.C10
